@@ -286,8 +286,17 @@ def lean_consts(vals: dict[str, int], ty: str = "Nat") -> str:
 # --------------------------------------------------------------------------------------
 
 def lake(args: list[str], timeout: int = 7200) -> subprocess.CompletedProcess:
+    """Run lake in the Lean project. Builds from concurrent check runs are serialised with a file
+    lock (two `lake build`s racing on the same module have been seen to delete each other's .olean)."""
+    import fcntl
     env = dict(os.environ)
-    return subprocess.run(["lake", *args], cwd=LEAN, capture_output=True, text=True, timeout=timeout, env=env)
+    BUILD.mkdir(parents=True, exist_ok=True)
+    with open(BUILD / "lake.lock", "w") as lk:
+        fcntl.flock(lk, fcntl.LOCK_EX)
+        try:
+            return subprocess.run(["lake", *args], cwd=LEAN, capture_output=True, text=True, timeout=timeout, env=env)
+        finally:
+            fcntl.flock(lk, fcntl.LOCK_UN)
 
 
 def lake_build(targets: list[str], timeout: int = 7200) -> tuple[bool, str]:
